@@ -134,9 +134,19 @@ func (u *provider) Headroom() int {
 }
 
 func (u *provider) SetDispatchPorts(start, end, redirect uint16) {
+	u.mu.Lock()
+	defer u.mu.Unlock()
 	u.dispatchStart = start
 	u.dispatchEnd = end
 	u.dispatchRedirect = redirect
+	// The range may be configured after the internal link has been created.
+	if c := u.internalConnection; c != nil {
+		if il, ok := c.link.(*internalLink); ok {
+			il.dispatchStart = start
+			il.dispatchEnd = end
+			il.dispatchRedirect = redirect
+		}
+	}
 }
 
 // AddSvc adds the address for the given service.
@@ -983,12 +993,12 @@ func (l *internalLink) Resolve(p *router.Packet, dst addr.Host, port uint16) err
 		if dstAddr.IsUnspecified() {
 			return router.ErrUnsupportedUnspecifiedAddress
 		}
+		// if port is outside the configured port range we send to the fixed port.
+		if port < l.dispatchStart || port > l.dispatchEnd {
+			port = l.dispatchRedirect
+		}
 	default:
 		panic(fmt.Sprintf("unexpected address type returned from DstAddr: %s", dst.Type()))
-	}
-	// if port is outside the configured port range we send to the fixed port.
-	if port < l.dispatchStart && port > l.dispatchEnd {
-		port = l.dispatchRedirect
 	}
 
 	// Packets that get here must have come from an external or a sibling link; neither of which
